@@ -2,7 +2,7 @@
    `step : Circuit → op → Circuit * outcome` (Base/Api.v) is the model of the eight mutators, partial effects of a
    rejected call included; `Inv`, `pins_ok`, `edges` are defined in Model/ApiInv.v. *)
 From stdpp Require Import strings gmap sets.
-From CG Require Import Model.ApiInv Proofs.ApiProofs.
+From CG Require Import Model.ApiInv Proofs.ApiProofs Proofs.ApiFillProofs.
 Open Scope string_scope.
 
 (* obligation on the regenerated type lists of circuit.py (connect, add, supported_types): as sets they are the
@@ -45,30 +45,25 @@ Definition args_ok (o : op) : Prop :=
   | OAddBlackbox d _ ins outs _ => list_to_set ins = bb_in d ∧ list_to_set outs = bb_out d
   | _ => True end.
 
-(* full strength: every operation, succeeding or raising, preserves the invariant.  NOT proved for fill_blackbox;
-   decided for it on every generated history by the oracle (Run_C07.holds). *)
+(* full strength, all eight operations -- add (default flags / uid=True), connect, disconnect, remove, set_output,
+   add_blackbox, add_subcircuit, fill_blackbox -- with ARBITRARY arguments (missing nodes, duplicates, self references,
+   any type, any name, any connection map), whether the call succeeds or raises: the invariant is preserved.  The only
+   hypothesis on a subcircuit argument is that it is itself legally wired. *)
 Definition C07_invariant_full : Prop := ∀ C o, args_ok o → Inv C → Inv (step C o).1.
 Definition C07_reachable_full : Prop := ∀ C ops, Forall args_ok ops → Inv C → Inv (run C ops).
-(* the history statement is the one-step statement iterated *)
-Theorem C07_reachable_from_invariant : C07_invariant_full → C07_reachable_full.
+Lemma args_ok_sc_inv o : args_ok o → sc_inv o.
+Proof. destruct o; try done; by intros [? _]. Qed.
+Theorem C07_invariant : C07_invariant_full.
+Proof. intros C o Ha. apply (step_inv_all C o C07_tables_ok). by apply args_ok_sc_inv. Qed.
+Print Assumptions C07_invariant.
+Theorem C07_reachable : C07_reachable_full.
 Proof.
-  intros H C ops Ha. revert C. unfold run. induction Ha as [|o l Ha _ IH]; intros C Hi; simpl; [done|].
-  apply IH. by apply H.
+  intros C ops Ha. apply (run_inv_all C ops C07_tables_ok). eapply Forall_impl; [exact Ha|]. apply args_ok_sc_inv.
 Qed.
-Print Assumptions C07_reachable_from_invariant.
-
-(* proved: add (default flags / uid=True), connect, disconnect, remove, set_output, add_blackbox, add_subcircuit with
-   ARBITRARY arguments (missing nodes, duplicates, self references, any type, any name, any connection map), whether
-   the call succeeds or raises; the only hypothesis on a subcircuit argument is that it satisfies the invariant itself *)
-Theorem C07_invariant_partial : ∀ C o, not_fill o = true → sc_inv o → Inv C → Inv (step C o).1.
-Proof. intros C o. exact (step_inv_nofill C o C07_tables_ok). Qed.
-Print Assumptions C07_invariant_partial.
-Theorem C07_reachable_partial : ∀ C ops, Forall (λ o, not_fill o = true ∧ sc_inv o) ops → Inv C → Inv (run C ops).
-Proof. intros C ops. exact (run_inv_nofill C ops C07_tables_ok). Qed.
-Print Assumptions C07_reachable_partial.
-Theorem C07_reachable_from_empty_partial : ∀ name ops, Forall (λ o, not_fill o = true ∧ sc_inv o) ops → Inv (run (empty_circuit name) ops).
-Proof. intros name ops H. apply (run_inv_nofill _ ops C07_tables_ok H), empty_inv. Qed.
-Print Assumptions C07_reachable_from_empty_partial.
+Print Assumptions C07_reachable.
+Theorem C07_reachable_from_empty : ∀ name ops, Forall args_ok ops → Inv (run (empty_circuit name) ops).
+Proof. intros name ops H. apply C07_reachable; [done|apply empty_inv]. Qed.
+Print Assumptions C07_reachable_from_empty.
 
 (* ---------------------------------------------------------------- rejected calls *)
 (* full strength, every operation: a rejected call changes no wire and not the registry, and raises ValueError
@@ -96,7 +91,6 @@ Theorem C07_reject_fill : ∀ C inst SC e, (step C (OFillBlackbox inst SC)).2 = 
 Proof. intros C inst SC e. simpl. unfold fill_blackbox. repeat case_match; simpl; intros [=]; done. Qed.
 Print Assumptions C07_reject_fill.
 
-(* so the only case left open in C07_invariant_full is a fill_blackbox call that SUCCEEDS *)
 Theorem C07_invariant_fill_rejected : ∀ C inst SC e, Inv C → (step C (OFillBlackbox inst SC)).2 = Fail e → Inv (step C (OFillBlackbox inst SC)).1.
 Proof. intros C inst SC e Hi Hf. by destruct (C07_reject_fill C inst SC e Hf) as [-> _]. Qed.
 Print Assumptions C07_invariant_fill_rejected.
@@ -122,16 +116,19 @@ Proof. exact uid_fresh. Qed.
 Print Assumptions C07_uid_fresh.
 
 (* ---------------------------------------------------------------- blackbox pins *)
-(* R = names the caller passed to remove() so far.  NOT proved for fill_blackbox (the new registry entries are the
-   filling circuit's instances under the prefix; decided per history by the oracle). *)
-Definition C07_pins_full : Prop := ∀ C o R, args_ok o → Inv C → pins_ok C R → pins_ok (step C o).1 (R ∪ removed_by o).
-(* proved: every operation except fill_blackbox, arbitrary arguments, succeeding or raising *)
-Theorem C07_pins_partial : ∀ C o R, not_fill o = true → args_ok o → Inv C → pins_ok C R → pins_ok (step C o).1 (R ∪ removed_by o).
+(* R = names the caller passed to remove() so far.  Full strength, all eight operations.  fill_blackbox renames the
+   pin nodes of the filled instance, so it needs `pins_side`: no pin of ANOTHER recorded instance (that the caller did
+   not remove) is at the same time a pin node of the filled instance -- which cannot happen when recorded instance
+   names contain no dot (C07_pins_side_nodot); with dotted names it can ("a" with pin "b.c", "a.b" with pin "c"). *)
+Definition C07_pins_full : Prop := ∀ C o R, args_ok o → pins_side C o R → Inv C → pins_ok C R → pins_ok (step C o).1 (R ∪ removed_by o).
+Theorem C07_pins : C07_pins_full.
 Proof.
-  intros C o R Hnf Ha [Hc _] Hp. apply step_pins_nofill; try done; [by apply closed'_iff| |]; destruct o; try exact I; try exact Ha.
-  by destruct Ha.
+  intros C o R Ha Hs [Hc _] Hp. apply step_pins_all; try done; [by apply closed'_iff| |]; destruct o; try exact I; try exact Ha; by destruct Ha.
 Qed.
-Print Assumptions C07_pins_partial.
+Print Assumptions C07_pins.
+Theorem C07_pins_side_nodot : ∀ C o R, (∀ i, i ∈ dom (c_bbs C) → nodot i) → pins_side C o R.
+Proof. intros C o R H. destruct o; try exact I. by apply fill_side_nodot. Qed.
+Print Assumptions C07_pins_side_nodot.
 (* the five basic operations need no hypothesis at all *)
 Theorem C07_pins_basic : ∀ C o R, basic_op o = true → pins_ok C R → pins_ok (step C o).1 (R ∪ removed_by o).
 Proof. exact step_pins_basic. Qed.
@@ -150,16 +147,19 @@ Definition ex_ops : list op :=
     OConnect ["a"] ["f0.q"];                              (* rejected: blackbox output has no fan-in *)
     OConnect ["f0.q"] ["g"];                              (* rejected: blackbox output drives one buf only *)
     OSetOutput ["g_0"; "zz"] true; ORemove ["b"; "zz"]; ODisconnect ["a"] ["g"; "g_0"];
-    OAddSubcircuit ex_sub "s" [("d", ["a"]); ("y", ["g_0"])] ].
+    OAddSubcircuit ex_sub "s" [("d", ["a"]); ("y", ["g_0"])];
+    OAddBlackbox {| bb_name := "inv"; bb_in := {["d"]}; bb_out := {["y"]} |} "u1" ["d"] ["y"] [("d", ["g"])];
+    OFillBlackbox "u1" ex_sub ].
 Example C07_ex_history :
   let C := run (empty_circuit "top") ex_ops in
-  Inv C ∧ pins_ok C {["b"; "zz"]} ∧ dom (c_g C) = {["a"; "g"; "q"; "f0.d"; "f0.clk"; "f0.q"; "g_0"; "k"; "s_d"; "s_y"]} ∧
-  edges (c_g C) = {[("g", "f0.d"); ("f0.q", "q"); ("a", "s_d"); ("s_d", "s_y"); ("s_y", "g_0")]} ∧ dom (c_bbs C) = {["f0"]}.
+  Inv C ∧ pins_ok C {["b"; "zz"]} ∧ dom (c_g C) = {["a"; "g"; "q"; "f0.d"; "f0.clk"; "f0.q"; "g_0"; "k"; "s_d"; "s_y"; "u1_d"; "u1_y"]} ∧
+  edges (c_g C) = {[("g", "f0.d"); ("f0.q", "q"); ("a", "s_d"); ("s_d", "s_y"); ("s_y", "g_0"); ("g", "u1_d"); ("u1_d", "u1_y")]} ∧
+  dom (c_bbs C) = {["f0"]}.
 Proof.
   split.
-  { apply C07_reachable_from_empty_partial. unfold ex_ops.
-    repeat (apply Forall_cons; split; [split; [reflexivity|simpl; try exact I]|]); [|done].
-    apply C07_invb_spec. vm_compute. reflexivity. }
+  { apply C07_reachable_from_empty. unfold ex_ops.
+    repeat (apply Forall_cons; split; [simpl; first [exact I | (split; apply (bool_decide_unpack _); vm_compute; exact I)
+      | (split; [apply C07_invb_spec|apply C07_pins_okb_spec]; vm_compute; reflexivity)]|]). done. }
   split; [apply C07_pins_okb_spec; vm_compute; reflexivity|].
   repeat split; apply (bool_decide_unpack _); vm_compute; exact I.
 Qed.
